@@ -64,6 +64,9 @@ impl Check for NftVotes {
     fn id(&self) -> &'static str { "nft_votes" }
     fn runs(&self, tier: Tier) -> u64 { if tier == Tier::Quick { 400 } else { 30_000 } }
     fn components(&self) -> serde_json::Value { serde_json::json!({"real": ["non_fungible::votes::NonFungibleVotes", "governance::votes::*", "NFT Base + sequential ids"], "stub": ["Wallet"]}) }
+    fn clock_step(&self, n: u32) -> Option<Step> {
+        Some(Step::Advance { n })
+    }
     fn generate(&self, rng: &mut Rng, tier: Tier) -> (Cfg, std::vec::Vec<Step>) {
         let cfg = Cfg { actors: 3 + rng.below(2) as usize, start_ledger: 1 + rng.below(50_000) as u32 };
         let n = cfg.actors as u64;
